@@ -127,6 +127,16 @@ func C13(r *vf.Run) {
 
 	caseFn := func(g *vf.Rng, ci int, cells map[string]int64) {
 		b, _ := bus.New()
+		switch ci % 3 { // a Bus is a plain struct: callers also declare one, or hold one by value inside their own type
+		case 1:
+			b = new(bus.Bus)
+		case 2:
+			host := &struct {
+				frame uint32
+				b     bus.Bus
+			}{}
+			b = &host.b
+		}
 		shadow := map[uint32]int{} // block -> memory index (absent = unattached)
 		var mems []*c13mem
 		// work inside a window so ranges overlap often; window placed anywhere incl. top of space
